@@ -302,9 +302,6 @@ class IntEnc:
             p = self.new_atom("P", xl * yl, xh * yh, ("prod", x, y))
             self.prods[(x, y)] = p
             self.prod_ops[p] = (x, y)
-            if x == y:
-                # a square is 0 or 1 modulo 4 (compilers use it: `x*x & !2`)
-                self.cons.append("(<= (mod %s 4) 1)" % p)
             # exact when an operand is Boolean
             for u, v in ((x, y), (y, x)):
                 if self.atoms[u] == (0, 1):
@@ -491,18 +488,6 @@ class IntEnc:
                     fu, lu, hu = self.F(u)
                     if lu >= 0 and hu < (v & -v):
                         return fu + Lin(v), lu + v, hu + v
-            # ... or a term whose trailing bits are known to be zero (a left shift) above the other operand's range
-            for u, v in ((x, y), (y, x)):
-                if isinstance(v, Term) and isinstance(u, Term):
-                    zv = v.zmask & (M - 1)
-                    tz = 0
-                    while tz < w and (zv >> tz) & 1:
-                        tz += 1
-                    if tz:
-                        fu, lu, hu = self.F(u)
-                        if lu >= 0 and hu < (1 << tz):
-                            fv, lv, hv = self.F(v)
-                            return fu + fv, lu + lv, hu + hv
             if w == 1:
                 f0, _, _ = self.F(x)
                 f1, _, _ = self.F(y)
@@ -546,28 +531,6 @@ class IntEnc:
                     _, _, _, f, lo, hi = self.split(f, lo, hi, i)
                 low, ll, lh, _, _, _ = self.split(f, lo, hi, j - i)
                 return low.scale(1 << i), ll << i, lh << i
-            # a few runs of ones (e.g. a low mask with one or two holes): sum of the slices
-            runs = []
-            k_, pos = K, 0
-            while k_:
-                if k_ & 1:
-                    st_ = pos
-                    while k_ & 1:
-                        k_ >>= 1
-                        pos += 1
-                    runs.append((st_, pos))
-                else:
-                    k_ >>= 1
-                    pos += 1
-            if len(runs) <= 4 and lx >= 0:
-                tot, tl, th = Lin(0), 0, 0
-                for (i, j) in runs:
-                    f, lo, hi = fx, lx, hx
-                    if i:
-                        _, _, _, f, lo, hi = self.split(f, lo, hi, i)
-                    low, ll, lh, _, _, _ = self.split(f, lo, hi, j - i)
-                    tot, tl, th = tot + low.scale(1 << i), tl + (ll << i), th + (lh << i)
-                return tot, tl, th
             return self.opaque_atom(t)
         Bx = self.as_mask(fx, w)
         if Bx is not None:
